@@ -1092,6 +1092,7 @@ func c13Linked(p *core.Program, r *core.Report, t *types.Named, rule string) {
 			}
 		}
 	}
+	checkedFns := map[*types.Func]bool{}
 	for _, fi := range cands {
 		if fi.Decl.Body == nil {
 			continue
@@ -1135,6 +1136,70 @@ func c13Linked(p *core.Program, r *core.Report, t *types.Named, rule string) {
 		c := tn + "." + fi.Obj.Name()
 		pos := p.Pos(fi.Decl.Pos())
 		var probs []string
+		// the node being inserted: a local defined as &Entity{prev: P, next: S}; what P and S are
+		info := fi.Pkg.TypesInfo
+		fresh := map[string][2]string{} // local name -> {norm(P), norm(S)}
+		ast.Inspect(fi.Decl.Body, func(n ast.Node) bool {
+			as, ok := n.(*ast.AssignStmt)
+			if !ok || len(as.Lhs) != len(as.Rhs) {
+				return true
+			}
+			for i, rhs := range as.Rhs {
+				lid, ok := as.Lhs[i].(*ast.Ident)
+				if !ok {
+					continue
+				}
+				x := ast.Unparen(rhs)
+				if u, ok := x.(*ast.UnaryExpr); ok && u.Op == token.AND {
+					x = ast.Unparen(u.X)
+				}
+				cl, ok := x.(*ast.CompositeLit)
+				if !ok {
+					continue
+				}
+				st, ok := info.TypeOf(cl).Underlying().(*types.Struct)
+				if !ok {
+					continue
+				}
+				ps := [2]string{"nil", "nil"}
+				for k, el := range cl.Elts {
+					name, val := "", el
+					if kv, ok := el.(*ast.KeyValueExpr); ok {
+						if kid, ok := kv.Key.(*ast.Ident); ok {
+							name, val = kid.Name, kv.Value
+						}
+					} else if k < st.NumFields() {
+						name = st.Field(k).Name()
+					}
+					switch name {
+					case "prev":
+						ps[0] = norm(val)
+					case "next":
+						ps[1] = norm(val)
+					}
+				}
+				fresh[lid.Name] = ps
+			}
+			return true
+		})
+		// same: x denotes the neighbour expression nb (the expression itself, or a local defined as it)
+		same := func(x, nb string) bool {
+			if x == nb {
+				return true
+			}
+			found := false
+			ast.Inspect(fi.Decl.Body, func(n ast.Node) bool {
+				if as, ok := n.(*ast.AssignStmt); ok && len(as.Lhs) == len(as.Rhs) {
+					for i, l := range as.Lhs {
+						if lid, ok := l.(*ast.Ident); ok && lid.Name == x && norm(as.Rhs[i]) == nb {
+							found = true
+						}
+					}
+				}
+				return true
+			})
+			return found
+		}
 		for _, pa := range ps {
 			var setFirst, setLast string
 			for _, e := range pa {
@@ -1148,7 +1213,13 @@ func c13Linked(p *core.Program, r *core.Report, t *types.Named, rule string) {
 			}
 			headRemoved := strings.HasSuffix(setFirst, ".next")
 			tailRemoved := strings.HasSuffix(setLast, ".prev")
-			inserted := setFirst == "newNode" || setLast == "newNode"
+			_, f1 := fresh[setFirst]
+			_, f2 := fresh[setLast]
+			inserted := f1 || f2
+			nodeName := setFirst
+			if !f1 {
+				nodeName = setLast
+			}
 			cleared := setFirst == "nil" && setLast == "nil"
 			emptyKnown := func(neg bool) bool {
 				// the path knows whether the list becomes empty / the node had no neighbour on that side
@@ -1170,11 +1241,40 @@ func c13Linked(p *core.Program, r *core.Report, t *types.Named, rule string) {
 				if pa.CountArg("SIZE", "++") != 1 {
 					probs = append(probs, "a node is linked in without exactly one size++: "+pa.String())
 				}
-				// inserting into an empty list must set both ends
-				for _, e := range pa {
-					if e.Kind == "COND" && (e.Arg == "l==nil=true" || e.Arg == "f==nil=true" || e.Arg == "prev==nil=true") {
-						if !(setFirst == "newNode" && (setLast == "newNode" || fi.Obj.Name() == "PutBefore")) {
-							probs = append(probs, "insertion into an empty list does not set both first and last")
+				// a node without a predecessor becomes the first, one without a successor the last; a
+				// neighbour that exists is pointed at the node
+				nb := fresh[nodeName]
+				for side, want := range [2]string{setFirst, setLast} {
+					endName := [2]string{"first", "last"}[side]
+					link := [2]string{".next=", ".prev="}[side]
+					none := nb[side] == "nil"
+					has := false
+					for _, e := range pa {
+						if e.Kind != "COND" || !strings.HasSuffix(strings.TrimSuffix(strings.TrimSuffix(e.Arg, "=true"), "=false"), "==nil") {
+							continue
+						}
+						x := strings.TrimSuffix(strings.TrimSuffix(strings.TrimSuffix(e.Arg, "=true"), "=false"), "==nil")
+						if !same(x, nb[side]) {
+							continue
+						}
+						if strings.HasSuffix(e.Arg, "=true") {
+							none = true
+						} else {
+							has = true
+						}
+					}
+					if none && want != nodeName {
+						probs = append(probs, "a node inserted with no neighbour on the "+endName+" side does not become `"+endName+"`: it is unreachable from that end (insertion into an empty list must set both ends)")
+					}
+					if has {
+						linked := false
+						for _, e := range pa {
+							if e.Kind == "LINKSET" && strings.HasSuffix(e.Arg, link+nodeName) {
+								linked = true
+							}
+						}
+						if !linked {
+							probs = append(probs, "the existing neighbour on the "+endName+" side is not pointed at the new node")
 						}
 					}
 				}
@@ -1208,10 +1308,31 @@ func c13Linked(p *core.Program, r *core.Report, t *types.Named, rule string) {
 				_ = emptyKnown
 			}
 		}
+		checkedFns[fi.Obj] = true
 		if len(probs) > 0 {
 			r.Viol(rule, c, pos, strings.Join(uniq(probs), "; "))
 		} else {
 			r.OK(rule, c, pos, fmt.Sprintf("%d paths keep first/last/size consistent", len(ps)))
+		}
+	}
+	// exported operations that do their surgery through one of the functions judged above (AddFirst ->
+	// link, RemoveFirst -> remove): recorded so that merging several operations into one helper does
+	// not look like anchors that went missing
+	for _, fi := range p.MethodsOf(t) {
+		if fi.Decl.Body == nil || !fi.Obj.Exported() || checkedFns[fi.Obj] {
+			continue
+		}
+		via := ""
+		ast.Inspect(fi.Decl.Body, func(n ast.Node) bool {
+			if call, ok := n.(*ast.CallExpr); ok {
+				if fn := calleeFunc(fi.Pkg.TypesInfo, call); fn != nil && checkedFns[fn] && via == "" {
+					via = fn.Name()
+				}
+			}
+			return true
+		})
+		if via != "" {
+			r.OK(rule, tn+"."+fi.Obj.Name()+" (through "+via+")", p.Pos(fi.Decl.Pos()), "delegates the list surgery to a function judged by this rule")
 		}
 	}
 }
